@@ -21,7 +21,7 @@ The C primitives are short programs of micro-instructions (`Mi`), the real units
   make_shared_string(w)                               share w             (found: saturating ref++, else new block)
   find_for_insert (new node) / mapping_delete         grow m / take..free..shrink m j
   free_call / free_sentence / dealloc_funp            free of the record: its captured values are its items
-  destruct_object                                     mark c  (+ free of the sentences of the object)
+  destruct_object                                     mark c  (+ stack slots holding the object zeroed, its sentences freed)
   destruct2                                           take (item c i); free  for every variable; take exist; free
 
 `free` is free_svalue: decrement; when the counter reaches 0 the cell is deallocated and every value it holds is
@@ -357,6 +357,7 @@ inductive Op where
   | call (k o st s t : Nat) | rmcall (k : Nat) | sweep
   | sent (k o s t : Nat) | rmsent (k : Nat)
   | err (s t : Nat) | efun (f s t : Nat)
+  | clones (n : Nat) | unclone (n : Nat)   -- program counter probe, see ProgRef in Drive.lean
   deriving Repr
 
 /-- number of members of the harness class -/
@@ -534,7 +535,10 @@ def compile (s : St) (op : Op) : Option (List Mi) :=
   | .dest o =>
     match objCell s o with
     | some (c, _) =>
-      some ((sentsOf s c).flatMap (fun k => [Mi.take (.root (rSent k)), .free, .allocd (-2), .distinct (-1)])
+      -- remove_object_from_stack: every stack slot holding the object is released and zeroed first
+      let onStack := (List.range (top - nFixed)).filter (fun i => s.roots[nFixed + i]? == some (.ptr c))
+      some (onStack.flatMap (fun i => [Mi.take (.root (nFixed + i)), Mi.free])
+            ++ (sentsOf s c).flatMap (fun k => [Mi.take (.root (rSent k)), .free, .allocd (-2), .distinct (-1)])
             ++ [.mark c])
     | none => none
   | .cleanup =>
@@ -579,6 +583,8 @@ def compile (s : St) (op : Op) : Option (List Mi) :=
     | none => none
   | .err _ _ => none
   | .efun _ _ _ => none
+  | .clones _ => none
+  | .unclone _ => none
 
 /-- result of one operation -/
 inductive Res where
